@@ -73,7 +73,7 @@ def load_known():
     return out
 
 
-def finish(ctx, level_explanation, rule_text, trusted=None):
+def finish(ctx, level_explanation, rule_text, trusted=None, write=True):
     """Write evidence, print protocol lines, return exit code."""
     known = load_known()
     violations = []
@@ -95,9 +95,10 @@ def finish(ctx, level_explanation, rule_text, trusted=None):
     for o in violations:
         safe = o["key"].replace("/", "_").replace(":", "_").replace(" ", "_").replace("<", "").replace(">", "")[:150]
         rp = os.path.join(ev_dir, "replay", "%s.json" % safe)
-        with open(rp, "w") as f:
-            json.dump({"property": ctx.prop, "obligation": o,
-                       "how_to_replay": "./check %s --explain %s" % (ctx.prop, rp)}, f, indent=1, default=str)
+        if write:
+            with open(rp, "w") as f:
+                json.dump({"property": ctx.prop, "obligation": o,
+                           "how_to_replay": "./check %s --explain %s" % (ctx.prop, rp)}, f, indent=1, default=str)
         lines.append("VIOLATION property=%s replay=%s" % (ctx.prop, rp))
         lines.append("  rule=%s instance=%s at %s: %s" % (o["rule"], o["instance"], o["where"], o["why"]))
     samples = []
@@ -134,8 +135,9 @@ def finish(ctx, level_explanation, rule_text, trusted=None):
         "wall_s": round(time.time() - ctx.t0, 3),
         "violations": len(violations),
     }
-    with open(os.path.join(ev_dir, "%s.json" % ctx.prop), "w") as f:
-        json.dump(ev, f, indent=1, default=str)
+    if write:
+        with open(os.path.join(ev_dir, "%s.json" % ctx.prop), "w") as f:
+            json.dump(ev, f, indent=1, default=str)
     for l in lines:
         print(l)
     print("%s: %d obligations, %d discharged, %d known finding(s), %d violation(s) [%s tier, %.1fs]" % (
